@@ -1,5 +1,5 @@
 (* C06 — backings are persistent: snapshots and copies never change.  Property theorems only. *)
-Require Import RM.Base RM.Gindex RM.Tree RM.TreeHeap RM.HeapProofs RM.Types RM.ModelStore RM.StoreProofs.
+Require Import RM.Base RM.Gindex RM.Tree RM.TreeHeap RM.HeapProofs RM.Types RM.ModelStore RM.StoreProofs RM.StoreChain.
 
 (* whatever is allocated later, every existing address keeps denoting the same tree and holds the
    same object *)
@@ -36,3 +36,20 @@ Print Assumptions C06_setter_extends.
 Print Assumptions C06_root_frame.
 Print Assumptions C06_copy_isolated.
 Print Assumptions C06_copy_has_no_hook.
+
+(* hooked case, chains of any depth: a mutating command through a view at the bottom of a hook chain
+   changes only the cells of that chain.  A copy has no hook (C06_copy_has_no_hook), so a chain that starts
+   at a copy or below it never contains the view it was copied from, nor any other copy or snapshot:
+   those cells are exactly as they were, whether the command succeeds or fails *)
+Theorem C06_only_the_chain_changes : forall H src s cm tr cid v lk rest,
+  Chain H s tr -> tr = (cid, v, lk) :: rest -> target cm = cid -> mutating cm = true ->
+  forall res s', run_cmd H src s cm = (res, s') ->
+  forall u, (forall e, In e tr -> fst (fst e) <> u) -> nth_error s' u = nth_error s u.
+Proof.
+  intros H src s cm tr cid v lk rest Hch Htr Ht Hm res s' Hr u Hu.
+  destruct (cmd_on_chain H src s cm tr cid v lk rest Hch Htr Ht Hm) as [(e0 & He)|(x & s2 & _ & Hok & _ & _ & Hfr)]; rewrite Hr in *.
+  - inversion He; subst. reflexivity.
+  - inversion Hok; subst. now apply Hfr.
+Qed.
+
+Print Assumptions C06_only_the_chain_changes.
